@@ -46,6 +46,9 @@ class CriticalPathCalculator:
         self.__tasks: Dict[Any, Task] = {}
         self.__end_date = end_date
 
+        tasks = [t for t in tasks]
+        self.__members = set(id(t) for t in tasks)
+
         for t in tasks:
             if end_date is not None:
                 if t.end == end_date:
@@ -77,6 +80,8 @@ class CriticalPathCalculator:
         res = []
         for t in [task] + [p for p in task.all_parents]:
             for p in t.predecessors:
+                if id(p) not in self.__members:
+                    continue
                 if len(p.children) == 0:
                     res.append(p)
                 else:
